@@ -177,7 +177,8 @@ Proof. vm_compute. reflexivity. Qed.
 (* every listed hole is a hole of the regenerated table (no stale entry) *)
 Definition hole_is_hole (h : string * Z * Z) : bool :=
   existsb (fun p => String.eqb (p_mod p) (fst (fst h)) && (p_byte p =? snd (fst h)) && live p &&
-                    negb (survives the_table (p_mod p) p)) (t_pref the_table).
+                    negb (survives the_table (p_mod p) p)) (t_pref the_table) &&
+  hole_shape_ok the_table (fst (fst h)) (snd (fst h)).
 Lemma holes_are_holes : forallb hole_is_hole known_holes = true.
 Proof. vm_compute. reflexivity. Qed.
 
